@@ -97,32 +97,42 @@ let rec drop_none = function [] -> [] | Some x :: r -> x :: drop_none r | None :
 (* the plain view of C07: outside the model's float domain (a style row with an exotic float) only the class is compared *)
 let ssa_plain_simple d = match read_ssa d with Err EOther -> false | _ -> true
 
+(* The suites below run the CHECKED transcription (Model/SsaC.v: every panic site of ssa.go behind its guard), equal to
+   the functions of Model/Ssa.v by Proofs/SsaChk.v.  The reader takes the options: both callbacks may be nil; the wire
+   protocol has no field for them, so the value is derived from the length of the input (all four combinations occur;
+   the result does not depend on it, read_ssa_lines_c_ok). *)
+let opts_of (d : n list) : ssa_opts =
+  let k = List.length d in
+  { so_unknown = (if k land 1 = 0 then Some () else None); so_invalid = (if k land 2 = 0 then Some () else None) }
+(* a checked function that cannot fail in the model (its result is Ok by Proofs/SsaChk.v) *)
+let ok_of name = function Ok v -> v | Err _ -> failwith (name ^ ": Err") | Panic _ -> failwith (name ^ ": Panic")
+
 let () =
   Drv_plain.register_plain 2 ssa_dec ssa_enc ssa_plain_simple;
-  register "ssareadm" (fun r -> pres_ns pdoc_ssa (read_ssa (rstr r)));
+  register "ssareadm" (fun r -> let d = rstr r in pres_ns pdoc_ssa (read_ssa_c (opts_of d) d));
   register "ssawritem" (fun r ->
     let d = rdoc_ssa r in let order = rlist rstr r in
-    pres pstr (write_ssa d order));
+    pres pstr (write_ssa_c d order));
   register "ssawritechunks" (fun r ->
     let d = rdoc_ssa r in let order = rlist rstr r in
-    pres (plist pstr) (write_ssa_chunks d order));
-  register "ssastyle" (fun r -> let c = rstr r in let fmt = rlist rstr r in pres_ns pstyle_ssa (style_from_string c fmt));
+    pres (plist pstr) (write_ssa_chunks_c d order));
+  register "ssastyle" (fun r -> let c = rstr r in let fmt = rlist rstr r in pres_ns pstyle_ssa (style_from_string_c c fmt));
   register "ssastylestr" (fun r ->
     let s = rstyle_ssa r in let names = rlist rstr r in
-    pstr (style_string s (drop_none (List.map (find_sattr sattrs_all) names))));
+    pstr (ok_of "style_string_c" (style_string_c s (drop_none (List.map (find_sattr sattrs_all) names)))));
   register "ssaevent" (fun r ->
-    let h = rstr r in let c = rstr r in let fmt = rlist rstr r in pres_ns pevent (event_from_string h c fmt));
+    let h = rstr r in let c = rstr r in let fmt = rlist rstr r in pres_ns pevent (event_from_string_c h c fmt));
   register "ssaeventstr" (fun r ->
     let e = revent r in let names = rlist rstr r in
-    pstr (event_string e (drop_none (List.map (find_eattr eattrs_all) names))));
-  register "ssacolor" (fun r -> pres (popt_with pcolor) (parse_color (rstr r)));
+    pstr (ok_of "event_string_c" (event_string_c e (drop_none (List.map (find_eattr eattrs_all) names)))));
+  register "ssacolor" (fun r -> pres (popt_with pcolor) (parse_color_c (rstr r)));
   register "ssacolorstr" (fun r -> pstr (format_color (rcolor r)));
-  register "ssatime" (fun r -> poptz (parse_time (rstr r)));
-  register "ssatext" (fun r -> let name = rstr r in let text = rstr r in plist pline_ssa (text_lines name text));
+  register "ssatime" (fun r -> poptz (ok_of "parse_time_c" (parse_time_c (rstr r))));
+  register "ssatext" (fun r -> let name = rstr r in let text = rstr r in plist pline_ssa (ok_of "text_lines_c" (text_lines_c name text)));
   register "ssaitemtext" (fun r -> let ls = rlist rline_ssa r in pstr (item_name ls); pstr (item_text_ssa ls));
   register "ssaitem" (fun r ->
     let e = revent r in let names = rlist rstr r in
-    pitem_ssa (event_item e (List.map (fun k -> (k, None)) names)));
-  register "ssainfo" (fun r -> pstr (info_bytes (rinfo r)));
+    pitem_ssa (ok_of "event_item_c" (event_item_c e (List.map (fun k -> (k, None)) names))));
+  register "ssainfo" (fun r -> pstr (ok_of "info_bytes_c" (info_bytes_c (rinfo r))));
   register "ssafloat" (fun r -> poptz (parse_float3 (rstr r)));
   register "ssafloatstr" (fun r -> let z = rz r in pstr (format_float3 z); pstr (format_float_short z))
